@@ -20,7 +20,8 @@ def Verdict.toJson (id : Nat) (op : String) (key : UInt64) (v : Verdict) : Json 
               ("nontrivial", v.nontrivial), ("branch", v.branch), ("model", v.model), ("feat", v.feat),
               ("key", toString key)]
 
-abbrev OpFn := Json → Json → Except String Verdict
+/-- an operation handler: property view (e.g. "C03"), input, implementation output -/
+abbrev OpFn := String → Json → Json → Except String Verdict
 
 /-- first failing named check, if any -/
 def firstFail (checks : List (String × Bool)) : Option String :=
